@@ -14,13 +14,14 @@ import (
 	"strings"
 	"time"
 
+	"github.com/hashicorp/go-hclog"
 	"github.com/hashicorp/raft"
+	raftboltdb "github.com/rqlite/raft-boltdb/v2"
 	"github.com/rqlite/rqlite/v10/command/chunking"
 	"github.com/rqlite/rqlite/v10/command/proto"
 	sql "github.com/rqlite/rqlite/v10/db"
 	"github.com/rqlite/rqlite/v10/snapshot"
 	rlog "github.com/rqlite/rqlite/v10/store/log"
-	raftboltdb "github.com/rqlite/raft-boltdb/v2"
 )
 
 // =============================================================================================
@@ -69,16 +70,16 @@ const (
 
 // operations on a running node
 const (
-	voOpWrite      = iota // one EXECUTE command that appends a tag
-	voOpSnapKeep1         // Store.Snapshot(1): snapshot, keep one trailing log entry
-	voOpSnapKeepAll       // Store.Snapshot(0): snapshot, raft's default number of trailing entries (everything is kept)
-	voOpNoop              // one NOOP command (a command entry that does not change the database)
+	voOpWrite       = iota // one EXECUTE command that appends a tag
+	voOpSnapKeep1          // Store.Snapshot(1): snapshot, keep one trailing log entry
+	voOpSnapKeepAll        // Store.Snapshot(0): snapshot, raft's default number of trailing entries (everything is kept)
+	voOpNoop               // one NOOP command (a command entry that does not change the database)
 	voOpN
 )
 
 // what happens to the files between the shutdown and the next open
 const (
-	voTamperNone        = iota
+	voTamperNone               = iota
 	voTamperNoMarker           // marker deleted (Store.ForceSnapshotRestore does exactly this)
 	voTamperGarbageMarker      // marker is not JSON
 	voTamperCRC0               // marker rewritten without CRC (format of older releases)
@@ -200,7 +201,7 @@ type voSnapRC struct {
 }
 
 func (r *voSnapRC) Read(p []byte) (int, error) { return 0, io.EOF }
-func (r *voSnapRC) Close() error                { r.closed = true; return nil }
+func (r *voSnapRC) Close() error               { r.closed = true; return nil }
 
 type voSink struct {
 	w         *voWorld
@@ -267,22 +268,22 @@ type voWorld struct {
 	dir string
 
 	// --- engine only ---
-	nodes    map[string]*voNode
-	verCtr   int
-	snaps    []*voSnap // oldest ... newest (snapshot.Snapshot.Less: term, index, id)
-	snapSeq  int
-	first    uint64 // index of ents[0]
-	ents     []voEntry
-	logOpen  bool
-	kv       map[string][]byte
-	term     uint64
-	handles  map[*sql.SwappableDB]string
-	streams  map[*snapshot.SnapshotStreamer]*voStream
-	tmpFiles map[*os.File]string
-	tmpCtr   int
-	sstores  int
-	rm       *voRaftModel
-	badCalls int
+	nodes      map[string]*voNode
+	verCtr     int
+	snaps      []*voSnap // oldest ... newest (snapshot.Snapshot.Less: term, index, id)
+	snapSeq    int
+	first      uint64 // index of ents[0]
+	ents       []voEntry
+	logOpen    bool
+	kv         map[string][]byte
+	term       uint64
+	handles    map[*sql.SwappableDB]string
+	streams    map[*snapshot.SnapshotStreamer]*voStream
+	tmpFiles   map[*os.File]string
+	tmpCtr     int
+	sstores    int
+	rm         *voRaftModel
+	badCalls   int
 	logDeletes int
 
 	// --- native only ---
@@ -321,7 +322,6 @@ func voNewWorld() *voWorld {
 }
 
 func (w *voWorld) cleanup() {
-	println("cleanup", w == nil)
 	if verifSymbolic() {
 		return
 	}
@@ -485,6 +485,9 @@ func voCreateTemp(dir, pattern string) (*os.File, error) {
 
 func voFileName(f *os.File) string { return voW.tmpFiles[f] }
 func voFileClose(f *os.File) error { return nil }
+func voFileFd(f *os.File) uintptr {
+	return 1 // asked for by package initialisers (colour detection of loggers)
+}
 
 // --- the marker ---
 
@@ -758,10 +761,10 @@ func voSnapNewStore(dir string) (*snapshot.Store, error) {
 	return new(snapshot.Store), nil
 }
 
-func voSnapSetNoVerifyDB(s *snapshot.Store, v bool) {}
-func voSnapSetReapThreshold(s *snapshot.Store, n int) {}
-func voSnapEnsureVerify(s *snapshot.Store) error    { return nil }
-func voSnapClose(s *snapshot.Store) error           { return nil }
+func voSnapSetNoVerifyDB(s *snapshot.Store, v bool)       {}
+func voSnapSetReapThreshold(s *snapshot.Store, n int)     {}
+func voSnapEnsureVerify(s *snapshot.Store) error          { return nil }
+func voSnapClose(s *snapshot.Store) error                 { return nil }
 func voUpgrade(old, new string, logger *log.Logger) error { return nil }
 
 func (w *voWorld) newestSnap() *voSnap {
@@ -961,6 +964,12 @@ func (l *voLayer) Addr() net.Addr {
 	return l.ln.Addr()
 }
 
+// raft's logger is never used: the model of raft.NewRaft does not log.
+func voHclogFromStandardLogger(l *log.Logger, opts *hclog.LoggerOptions) hclog.Logger { return nil }
+
+// package initialisation of fatih/color (pulled in by go-hclog) asks whether stdout is a terminal
+func voIsTerminal(fd uintptr) bool { return false }
+
 func voNewNetworkTransport(stream raft.StreamLayer, maxPool int, timeout time.Duration, logOutput io.Writer) *raft.NetworkTransport {
 	return new(raft.NetworkTransport)
 }
@@ -969,12 +978,13 @@ func voNewNetworkTransport(stream raft.StreamLayer, maxPool int, timeout time.Du
 //
 // Model of hashicorp/raft v1.7.3 at start (api.go NewRaft / restoreSnapshot) and of what a node that
 // can elect itself does right afterwards:
-//   1. snapshots.List(); the newest snapshot is opened and handed to FSM.Restore unless
-//      NoSnapshotRestoreOnStart; lastApplied := its index; configuration := the snapshot's;
-//   2. every log entry after the snapshot index is read (a missing one fails NewRaft); a
-//      LogConfiguration entry replaces the configuration;
-//   3. (commit index re-established - immediately on a node that is the only voter) the entries
-//      after lastApplied are applied in order: FSM.Apply for LogCommand entries only.
+//  1. snapshots.List(); the newest snapshot is opened and handed to FSM.Restore unless
+//     NoSnapshotRestoreOnStart; lastApplied := its index; configuration := the snapshot's;
+//  2. every log entry after the snapshot index is read (a missing one fails NewRaft); a
+//     LogConfiguration entry replaces the configuration;
+//  3. (commit index re-established - immediately on a node that is the only voter) the entries
+//     after lastApplied are applied in order: FSM.Apply for LogCommand entries only.
+//
 // Step 3 is done for every node here: "the node holds everything it had applied" is judged after
 // the entries it already had applied once are applied again.
 func voDecodeConf(data []byte) (raft.Configuration, bool) {
@@ -1613,6 +1623,44 @@ func (w *voWorld) newestSnapshotIndex() uint64 {
 		return 0
 	}
 	return metas[0].Index
+}
+
+// walHoldsWrites: the node is down and there is a WAL file with content next to the main file.
+func (w *voWorld) walHoldsWrites() bool {
+	if verifSymbolic() {
+		return len(w.walTags(w.dbPath())) > 0
+	}
+	st, err := os.Stat(w.dbPath() + "-wal")
+	return err == nil && st.Size() > 0
+}
+
+// reachMarkers (engine): which ways through Open / raft's start this path took.
+func (w *voWorld) reachMarkers() {
+	rm := w.rm
+	if rm == nil {
+		return
+	}
+	if rm.restoreSkipped {
+		verifReach("fast-path-taken")
+		if len(rm.applied) > 0 {
+			verifReach("fast-path-then-log-replayed")
+		}
+	}
+	if rm.restoredFrom != "" {
+		verifReach("fast-path-not-taken-snapshot-restored")
+		if len(rm.applied) > 0 {
+			verifReach("snapshot-restored-then-log-replayed")
+		}
+	}
+	if rm.snapshotAtStart == 0 && len(rm.applied) > 0 {
+		verifReach("no-snapshot-whole-log-replayed")
+	}
+	if rm.snapshotAtStart > 0 && len(w.ents) > 0 && w.first <= rm.snapshotAtStart {
+		verifReach("log-holds-entries-the-snapshot-covers")
+	}
+	if len(w.snaps) >= 2 {
+		verifReach("two-snapshots-in-the-store")
+	}
 }
 
 // reflectedIndex: the index of the last log entry the node's database reflects once everything
